@@ -317,6 +317,22 @@ def fs_valid(case):
         return False
 
 
+def huge_cases():
+    """directories whose total (and single files whose size) pass 2^31 and 2^32: sums must be taken in size_t.  The harness
+    creates files from 16 MiB on as sparse files."""
+    G = 1 << 30
+    out = []
+    for sizes in ([3 * G // 2, 3 * G // 2], [2 * G - 1, 1], [2 * G + 5], [G, G, G, G, 7], [5 * G, 300]):
+        case = ["ps root @", "ps mkdir " + hx(b"d"), "ps mkdir " + hx(b"d/sub")]
+        for i, n in enumerate(sizes):
+            case.append("ps mkfile %s %d" % (hx((b"d/f%d" if i % 2 == 0 else b"d/sub/g%d") % i), n))
+        case.append("ps mkfile %s 12" % hx(b"d/small"))
+        for q in (b"d", b"d/sub", b"d/f0", b""):
+            case += ["ps size " + hx(q), "ps sfs_size " + hx(q)]
+        out.append(case)
+    return out
+
+
 def gen_fs_case(rng, tier, big):
     ref = FsRef()
     case = ["ps root @"]
@@ -1155,6 +1171,7 @@ def tie_path(res, binary, wd, tier, rng):
     cases = [c for c in corpus if fs_valid(c)]
     for i in range(ncases):
         cases.append(gen_fs_case(frng, tier, big=(tier != "quick" and i % 25 == 0)))
+    cases += huge_cases()
     exp = [fs_expected(c) for c in cases]
     impl, dirs, nrun = run_batched(binary, wd, cases, exp, "ps", 10, 40)
     cases, exp = cases[:nrun], exp[:nrun]
